@@ -27,11 +27,16 @@
    The forwarder.  Unchanged code (legacy):  for s := range userCh { wrappedCh <- s }  - a forwarder
    holding a value while the consumer does not read is blocked in the send forever, also after the
    subscriber's context was cancelled (goroutine leak, C18).  Repaired code:
-     for s := range userCh { select { case wrappedCh <- s: case <-ctx.Done(): return } }
-   i.e. a forwarder holding a value may, once the context is cancelled, give up: the value in its
-   hand is lost, wrappedCh is closed (deferred) and the goroutine ends - label [LFwdAbort].  The model
-   keeps the lost value in [hand] (nobody looks at it again: every forwarder label requires
-   [wclosed = false]), so that the pipeline equation of FsmStream.v stays an equation.
+     for s := range userCh {
+       select { case wrappedCh <- s:
+                case <-ctx.Done(): select { case wrappedCh <- s:
+                                            case <-time.After(forwardGrace): } } }   // 100 ms
+   i.e. once the context is cancelled a value the forwarder holds waits for room in the wrapped
+   channel only for a bounded grace; then it is discarded (label [LFwdAbort], a TIMED internal step
+   like the broadcast timeout [LDrop]; the subscriber "did not keep up": the ghost flag [dropped] is
+   set) and the forwarder goes on with the manager channel until the cleanup goroutine closes it;
+   then it closes the wrapped channel and ends ([LFwdClose], as before).  A consumer that keeps
+   reading after the cancel still receives everything.
    [stepx fx] is the model with ([fx] = true) or without the repair; [fix_fwd] says which variant
    [step] - the one all theorems and the correspondence checks are about - is. *)
 From Coq Require Export List NArith Bool.
@@ -118,7 +123,9 @@ Record sub := mkSub {
   wclosed : bool;
   cancelled : bool;      (* the subscriber's context *)
   unsub : bool;          (* cleanup goroutine has un-registered (and closed bch) *)
-  dropped : bool;        (* a broadcast timed out on this subscriber: it did not keep up *)
+  dropped : bool;        (* a broadcast timed out on this subscriber, or the repaired forwarder discarded a
+                            value after the cancel because the wrapped channel stayed full for the whole
+                            grace period: it did not keep up *)
   got : list st;         (* what the consumer received, oldest first *)
   gotclosed : bool;      (* the consumer saw the channel closed *)
   reg_at : nat;          (* ghost: number of state changes so far at registration *)
@@ -150,7 +157,7 @@ Inductive label :=
 | LRecvClosed (i : nat)
 | LGet (v : st)                 (* GetState() = v *)
 | LIsRun (b : bool)             (* IsRunning() = b  (GetState() == Running in all three runners) *)
-| LFwdAbort (i : nat).          (* repaired forwarder: ctx.Done() wins the select, value dropped, wch closed *)
+| LFwdAbort (i : nat).          (* repaired forwarder: cancelled, wrapped channel full, grace expired: value discarded *)
 
 Fixpoint upd (i : nat) (f : sub -> sub) (l : list sub) : list sub :=
   match l, i with
@@ -237,7 +244,6 @@ Definition stepx (fx : bool) (c : tcfg) (s : state) (l : label) : option state :
     with_sub s i (fun x =>
       match sg x, hand x, bch x with
       | SLive, None, v :: r =>
-        if wclosed x then None else
         Some (mkSub SLive r (bclosed x) (Some v) (wch x) (wclosed x) (cancelled x) (unsub x)
                     (dropped x) (got x) (gotclosed x) (reg_at x) (read_at x) (unsub_at x))
       | _, _, _ => None
@@ -246,7 +252,6 @@ Definition stepx (fx : bool) (c : tcfg) (s : state) (l : label) : option state :
     with_sub s i (fun x =>
       match hand x, wch x with
       | Some v, [] =>
-        if wclosed x then None else
         Some (mkSub (sg x) (bch x) (bclosed x) None [v] (wclosed x) (cancelled x) (unsub x)
                     (dropped x) (got x) (gotclosed x) (reg_at x) (read_at x) (unsub_at x))
       | _, _ => None
@@ -300,13 +305,13 @@ Definition stepx (fx : bool) (c : tcfg) (s : state) (l : label) : option state :
   | LFwdAbort i =>
     if fx then
       with_sub s i (fun x =>
-        match sg x, hand x with
-        | SLive, Some _ =>
-          if cancelled x && negb (wclosed x)
-          then Some (mkSub SLive (bch x) (bclosed x) (hand x) (wch x) true (cancelled x) (unsub x)
-                           (dropped x) (got x) (gotclosed x) (reg_at x) (read_at x) (unsub_at x))
+        match sg x, hand x, wch x with
+        | SLive, Some _, _ :: _ =>
+          if cancelled x
+          then Some (mkSub SLive (bch x) (bclosed x) None (wch x) (wclosed x) (cancelled x) (unsub x)
+                           true (got x) (gotclosed x) (reg_at x) (read_at x) (unsub_at x))
           else None
-        | _, _ => None
+        | _, _, _ => None
         end)
     else None
   end.
